@@ -63,12 +63,13 @@ def classify(expr):
     m = re.fullmatch(r"\(?!(\w+)\.load\(\)\?\.is_protocol_paused\(\)\)?", e)
     if m:
         return ("notPaused", m.group(1))
-    m = re.fullmatch(r"\{leta=(\w+)\.load\(\)\?;letg=(\w+)\.load\(\)\?;is_signer_authorized\(&a,g\.admin,(\w+)\.key\(\),(true|false)\)\}", e)
+    # (the names of the `let`-bound locals are irrelevant: back-references tie each use to its binding)
+    m = re.fullmatch(r"\{let(\w+)=(\w+)\.load\(\)\?;let(\w+)=(\w+)\.load\(\)\?;is_signer_authorized\(&\1,\3\.admin,(\w+)\.key\(\),(true|false)\)\}", e)
+    if m and m.group(1) != m.group(3):
+        return ("signerAuth", m.group(2), m.group(5), m.group(6))
+    m = re.fullmatch(r"\{let(\w+)=(\w+)\.load\(\)\?;account_not_frozen_for_authority\(&\1,(\w+)\.key\(\)\)\}", e)
     if m:
-        return ("signerAuth", m.group(1), m.group(3), m.group(4))
-    m = re.fullmatch(r"\{leta=(\w+)\.load\(\)\?;account_not_frozen_for_authority\(&a,(\w+)\.key\(\)\)\}", e)
-    if m:
-        return ("notFrozen", m.group(1), m.group(2))
+        return ("notFrozen", m.group(2), m.group(3))
     m = re.fullmatch(r"is_(marginfi|kamino|drift|solend)_asset_tag\((\w+)\.load\(\)\?\.config\.asset_tag\)", e)
     if m:
         return ("assetTag", m.group(1), m.group(2))
@@ -93,9 +94,9 @@ def classify(expr):
             terms = [(m2.group(3), m2.group(1) == "")]
     if terms is not None:
         return ("flags", acct, terms)
-    m = re.fullmatch(r"\{leta=(\w+)\.load\(\)\?;letb=(\w+)\.load\(\)\?;letweight:I80F48=b\.config\.asset_weight_init\.into\(\);!\(a\.get_flag\(ACCOUNT_IN_RECEIVERSHIP\)&&weight==I80F48::ZERO\)\}", e)
-    if m:
-        return ("zeroWeightRecv", m.group(1), m.group(2))
+    m = re.fullmatch(r"\{let(\w+)=(\w+)\.load\(\)\?;let(\w+)=(\w+)\.load\(\)\?;let(\w+):I80F48=\3\.config\.asset_weight_init\.into\(\);!\(\1\.get_flag\(ACCOUNT_IN_RECEIVERSHIP\)&&\5==I80F48::ZERO\)\}", e)
+    if m and len({m.group(1), m.group(3), m.group(5)}) == 3:
+        return ("zeroWeightRecv", m.group(2), m.group(4))
     m = re.fullmatch(r"(\w+)\.load\(\)\?\.admin==(\w+)\.key\(\)", e)
     if m:
         return ("adminEq", m.group(1), m.group(2))
